@@ -563,6 +563,7 @@ class Machine(Node):
                             break
                     
                     if out_edge_index_to_put is not None:
+                         self.stats["out_edge_selection"].append(self.out_edges.index(out_edge_index_to_put))  # Store the index of the chosen out_edge
                          blocking_start_time = self.env.now
                          #self.check_thread_state_and_update_machine_state()
                          self.update_state_rep(self.env.now)
